@@ -132,6 +132,26 @@ class C12(Prop):
                 c["faults"] = [{"op": i, "seam": "rhs", "at": k + j, "kind": "spike", "amp": amp_} for j in range(40 * (cap + 2))]
                 c["tolerance_failure"] = True
                 out.append(c)
+        if gen.is_implicit(base["system"]["method"]) and not base["system"]["method"].startswith("Rich:") and points:
+            # "or tolerances cannot be met", implicit form: every stage solve of one integrator call is made to fail (and the retry cap is
+            # small): the call has to give up with an error - fixed-step implicit schemes included - and nothing of it may be recorded
+            sv_by_op = {}
+            for sv in w.solves:
+                sv_by_op.setdefault(sv["op"], []).append(sv["n"])
+            for _ in range(3):
+                cand = [i_ for i_ in sv_by_op if i_ <= base.get("fault_ops_upto", 1)]
+                if not cand:
+                    break
+                i = r.choice(sorted(cand))
+                n0 = r.choice(sv_by_op[i])
+                c = copy.deepcopy(base)
+                cap = r.choice([2, 3])
+                c["knobs"]["retry_cap"] = cap
+                c["knobs"]["retry_cap_ops"] = [i]
+                c["faults"] = [{"op": i, "seam": "solver", "at": n0 + j, "kind": "nonconv"} for j in range(4 * cap + 8)]
+                c["tolerance_failure"] = True
+                c["solver_failure_cap"] = cap
+                out.append(c)
         if points:
             # fault sequences: fault, resume, fault (in the resume op), resume ...
             for _ in range(min(24 if tier == "thorough" else 6, len(points))):
@@ -184,11 +204,22 @@ class C12(Prop):
             if snap["kind"] != "integrate":
                 continue
             pre_n = w.snaps[i - 1]["n"] if i > 0 else 1
-            if i in fired_ops and all(f["fault"]["kind"] == "spike" for f in w.fired if f["fault"]["op"] == i):
+            if i in fired_ops and all(f["fault"]["kind"] in ("spike", "nonconv") for f in w.fired if f["fault"]["op"] == i):
                 # ---------------- tolerances cannot be met (or the spikes were absorbed by retries)
                 diverged = True
                 tainted = True          # a perturbed step may have been accepted: no accuracy / twin comparison afterwards
                 e = snap["exc"]
+                cap_ = scn.get("solver_failure_cap")
+                if cap_:
+                    # an integrator call all of whose (cap) attempts had their stage solve fail must not come back with a step
+                    for c in w.icalls:
+                        if c["op"] == i and c["depth"] == 0 and c["ok"] and len(c["attempts"]) >= cap_ and \
+                                all(a_["solves"] and all(sv.get("injected") == "nonconv" for sv in a_["solves"]) for a_ in c["attempts"]):
+                            bad("tolerance_failure_raises", "op %d: an integrator call used up its %d attempts, every stage solve failed, and it still returned a step "
+                                "(t=%r, h=%r); integrate() %s" % (i, len(c["attempts"]), float(np.asarray(c["t0"], dtype=np.float64)),
+                                                                  float(np.asarray(c["attempts"][-1]["h"], dtype=np.float64)),
+                                                                  "returned normally" if e is None else "raised %s" % snap["exc_type"]), i)
+                            break
                 failed_tol = [c for c in w.icalls if c["op"] == i and c["depth"] == 0 and c["ok"] is False and c.get("exc") == "FailedToMeetTolerances"]
                 if failed_tol:
                     res["probes"]["tolerance_failure"] = res["probes"].get("tolerance_failure", 0) + 1
